@@ -39,6 +39,7 @@ PROPS["C03"] = dict(
         "Zrnt.Proofs.C03.indexedAttestation_sound",
         "Zrnt.Proofs.C03.spec_indexed_meaning",
         "Zrnt.Proofs.C03.slashable_sound",
+        "Zrnt.Proofs.C03.attestation_window_sound",
         "Zrnt.Proofs.C03.domain_separation",
         "Zrnt.Proofs.C03.domain_separation_no_collision",
         "Zrnt.Proofs.C03.M_total",
